@@ -715,7 +715,19 @@ pub fn fifo_entry_item() -> impl Strategy<Value = FifoItem> {
 pub fn fifo_block() -> impl Strategy<Value = FifoItem> {
     // Bodies full of bytes that look like entries, markers and tags.
     let b = prop_oneof![4 => any::<u8>(), 1 => Just(0xFFu8), 1 => Just(0xFEu8), 1 => Just(0x3Cu8), 1 => Just(0x80u8), 1 => Just(0u8)];
-    vec(b, 240..=240).prop_map(|body| FifoItem::Block { body })
+    // ... and, word by word, whole words that ARE entries, markers or the block header
+    let special_word = prop_oneof![
+        Just(oracles::fifo::BLOCK_TAG.to_vec()),
+        Just(vec![0xFFu8, 0xFF, 0xFF, 0xFF]),
+        Just(vec![0x00u8, 0x00, 0x80, 0xFF]),
+        (any::<u8>(), any::<u8>(), any::<u8>(), 0u8..59).prop_map(|(a, b, c, ch)| vec![a, b, c, 0x80 | ch]),
+    ];
+    (vec(b, 240..=240), vec((0usize..60, special_word), 0..=3)).prop_map(|(mut body, specials)| {
+        for (at, w) in specials {
+            body[4 * at..4 * at + 4].copy_from_slice(&w);
+        }
+        FifoItem::Block { body }
+    })
 }
 pub fn fifo_tail() -> impl Strategy<Value = FifoItem> {
     prop_oneof![
